@@ -210,5 +210,97 @@ def prepare(ctx):
     gen_literals(ctx)
 
 
+def enumerate_shapes(tier):
+    """Block shapes: list of (klens, vlens); vlen -1 = entry without value, 0 = empty value."""
+    P = itertools.product
+    shapes = []
+    def add(kls, vls):
+        kls, vls = list(kls), list(vls)
+        for kl in kls:
+            for vl in vls:
+                if len(kl) == len(vl) and (tuple(kl), tuple(vl)) not in shapes:
+                    shapes.append((tuple(kl), tuple(vl)))
+    V5 = (-1, 0, 1, 2, 3)
+    add(P((1, 2, 3)), P(V5))                                             # 1 entry: every key length x every value length / none
+    if tier == "quick":
+        add(P((1, 2, 3), repeat=2), P((-1, 0, 1, 3), repeat=2))          # 2 entries
+        add([(1, 1, 1), (2, 3, 2)], P((-1, 0, 2), repeat=3))             # 3 entries: every none/empty/non-empty order
+        add([(1, 2, 1, 2)], P((-1, 1), repeat=4))                        # 4 entries: every with/without-value order
+        add([(2, 2, 2, 2)], P((-1, 0), repeat=4))                        #            ... with empty values, equal key lengths (repeated keys)
+    else:
+        add(P((1, 2, 3), repeat=2), P(V5, repeat=2))
+        add(P((1, 3), repeat=3), P((-1, 0, 1, 3), repeat=3))
+        add([(2, 2, 2), (1, 2, 3)], P((-1, 0, 2), repeat=3))
+        add([(1, 2, 1, 2), (2, 2, 2, 2), (3, 1, 3, 3), (1, 1, 1, 1)], P((-1, 0, 2), repeat=4))
+        add([(3, 3, 3, 3)], P((-1, 3), repeat=4))
+    return shapes
+
+
+def shape_key(kl, vl):
+    return "k%d_%s_%s" % (len(kl), "".join(map(str, kl)), "".join("n" if v < 0 else str(v) for v in vl))
+
+
 def obligations(ctx):
-    return []
+    q = lambda f: '"%s"' % os.path.join(ctx.ext, f)
+    raw = {"META_TYPES": q(TYPES), "META_ITER_INC": q(EXT), "META_CONT_INC": q(EXT2)}
+    inj = {"META_TYPES": q(TYPES), "META_ITER_INC": q("inj_" + EXT), "META_CONT_INC": q("inj_" + EXT2)}
+    P = "harness/C17/proof.c"
+    pf = dict(mode="proof", defines=inj, loops=True, termination=True, instr=["--no-malloc-may-fail"],
+              cbmc=["--object-bits", "8", "--max-field-sensitivity-array-size", "64"], timeout=900, mem_gb=8)
+    obls = [
+        Obl("C17.metaiterator_advance.contract", "C17", P, entry="h_advance", enforce="metaiterator_advance",
+            functions=["metaiterator_advance"], **pf),
+        Obl("C17.MetaIterator_inc.contract", "C17", P, entry="h_inc", enforce="MetaIterator_inc", replace=["metaiterator_advance"],
+            functions=["Port::MetaIterator::operator++"], **pf),
+        Obl("C17.MetaContainer_length.contract", "C17", P, entry="h_length", enforce="MetaContainer_length",
+            functions=["Port::MetaContainer::length"], **pf),
+        Obl("C17.begin_end_meta.loopfree", "C17", P, entry="h_begin_end", replace=["metaiterator_advance"],
+            functions=["Port::MetaContainer::begin", "Port::MetaContainer::end", "Port::meta", "Port::MetaIterator::MetaIterator"], **pf),
+        Obl("C17.MetaIterator_inc.contract.canary", "C17", P, entry="h_inc", enforce="MetaIterator_inc", replace=["metaiterator_advance"],
+            canary=True, **pf),
+        Obl("C17.metaiterator_advance.contract.canary", "C17", P, entry="h_advance", enforce="metaiterator_advance", canary=True, **pf),
+    ]
+    S = "harness/C17/shape.c"
+    shapes = enumerate_shapes(ctx.tier)
+    for kl, vl in shapes:
+        blen = 1 + sum(1 + k + 1 + (v + 2 if v >= 0 else 0) for k, v in zip(kl, vl))
+        d = dict(raw, K=str(len(kl)), KLEN=",".join(map(str, kl)), VLEN=",".join(map(str, vl)))
+        obls.append(Obl("C17.shape." + shape_key(kl, vl), "C17", S, entry="h_shape", defines=d, mode="bounded",
+                        bound="shape-bounded: %d entries, key lengths %s, value lengths %s (-1 = no value); bytes symbolic over {a,b,':','=',' ','1'}"
+                              % (len(kl), list(kl), list(vl)),
+                        cbmc=["--unwind", str(blen + 3), "--unwinding-assertions"], timeout=900, mem_gb=8, termination=True,
+                        case={"klen": list(kl), "vlen": list(vl), "block_bytes": blen}))
+    # cross-check without the callee contract inside find/operator[] (real operator++ everywhere): small shapes only (expensive)
+    real = [((1,), (-1,)), ((2,), (1,)), ((3,), (3,)), ((1, 1), (-1, 0)), ((1, 2), (1, -1))]
+    if ctx.tier != "quick":
+        real += [((2, 2), (0, 2)), ((3, 3), (3, 3)), ((1, 1, 1), (-1, 0, -1))]
+    for kl, vl in real:
+        blen = 1 + sum(1 + k + 1 + (v + 2 if v >= 0 else 0) for k, v in zip(kl, vl))
+        d = dict(raw, K=str(len(kl)), KLEN=",".join(map(str, kl)), VLEN=",".join(map(str, vl)), LOOKUP_REAL=None)
+        obls.append(Obl("C17.shape_lookup_real." + shape_key(kl, vl), "C17", S, entry="h_shape", defines=d, mode="bounded",
+                        bound="shape-bounded, real operator++ inside find/operator[]: key lengths %s, value lengths %s" % (list(kl), list(vl)),
+                        cbmc=["--unwind", str(blen + 3), "--unwinding-assertions"], timeout=1500, mem_gb=10, termination=True,
+                        case={"klen": list(kl), "vlen": list(vl), "lookup": "real"}))
+    # container built from the metadata pointer itself (not through Port::meta()): MetaContainer(p.metadata), as path_search does
+    for kl, vl in [((1,), (-1,)), ((2, 1), (1, -1))]:
+        blen = 1 + sum(1 + k + 1 + (v + 2 if v >= 0 else 0) for k, v in zip(kl, vl))
+        d = dict(raw, K=str(len(kl)), KLEN=",".join(map(str, kl)), VLEN=",".join(map(str, vl)), UNSTRIPPED=None)
+        obls.append(Obl("C17.unstripped_container." + shape_key(kl, vl), "C17", S, entry="h_shape", defines=d, mode="bounded",
+                        bound="shape-bounded, container = MetaContainer(port.metadata): key lengths %s, value lengths %s" % (list(kl), list(vl)),
+                        cbmc=["--unwind", str(blen + 3), "--unwinding-assertions"], timeout=900, termination=True,
+                        case={"klen": list(kl), "vlen": list(vl), "container": "unstripped"}))
+    obls.append(Obl("C17.shape.canary", "C17", S, entry="h_shape", defines=dict(raw, K="3", KLEN="1,1,1", VLEN="-1,1,0"), mode="bounded",
+                    bound="canary", cbmc=["--unwind", "20", "--unwinding-assertions"], canary=True))
+    L = "harness/C17/literal.c"
+    for name, mac, pairs in LITERALS:
+        obls.append(Obl("C17.literal." + name, "C17", L, entry="h_literal", defines=dict(raw, LIT=name), mode="bounded",
+                        bound="the literal block %s (constants)" % mac, cbmc=["--unwind", "64", "--unwinding-assertions"],
+                        timeout=600, termination=True, case={"macros": mac, "pairs": [[k, v] for k, v in pairs]}))
+    obls.append(Obl("C17.literal.canary", "C17", L, entry="h_literal", defines=dict(raw, LIT="single_prop"), mode="bounded",
+                    bound="canary", cbmc=["--unwind", "64", "--unwinding-assertions"], canary=True))
+    if os.environ.get("VERIF_C17_COLON_KEY"):
+        # outside the checked domain (see ASSUMPTIONS): a key that starts with ':' - expected to FAIL, witness findings/c17_colon_key_witness.c
+        d = dict(raw, K="2", KLEN="2,1", VLEN="1,-1", MS_KEY_MAY_START_WITH_COLON=None)
+        obls.append(Obl("C17.colon_key.k2_21_1n", "C17", S, entry="h_shape", defines=d, mode="bounded", bound="keys may start with ':'",
+                        cbmc=["--unwind", "16", "--unwinding-assertions"], termination=True))
+    return obls
